@@ -226,21 +226,34 @@ def run(ck):
             "leaves unread while a peer is stalled into an event that fires on every epoll_wait: the worker spins", 3)
     for wf in [g_ for g_ in prog.flat_library_funcs() if g_.base.startswith("Pistache::Polling::Epoll::") and g_.blocks and any(p_["name"] == "mode" or "Mode" in (p_.get("type") or "") for p_ in g_.params)]:
         modep = [p_["name"] for p_ in wf.params if "Mode" in (p_.get("type") or "")][:1]
-        ets = [e for e in wf.events("assign") if "e:EPOLLET" in (e.get("refs") or []) or e.get("const") == "e:EPOLLET"]
+        ets = [e for e in wf.events(("assign", "return", "iret", "decl")) if "e:EPOLLET" in (e.get("refs") or []) or e.get("const") == "e:EPOLLET"]
         ck.require(modep and ets, "%s takes a trigger mode but never sets EPOLLET" % wf.name)
         for e in ets:
             guards = [(b, k) for b in wf.blocks.values() if b.term and len(b.succs) == 2 for k in (0, 1) if b.succs[k] is not None and cfg.edge_dominates(wf, b.id, k, e)]
+            # only the tests that lie inside the wrapper's own logic: the innermost one decides (outer ones, e.g. of a caller the
+            # wrapper was expanded into, are not about the mode)
+            guards = [(b, k) for b, k in guards if ("v:" + modep[0]) in (b.term.get("refs") or []) or any(r_.startswith("v:mode") for r_ in (b.term.get("refs") or []))] or guards
+            tern = re.search(r"\(?\s*([^?()]*)\)?\s*\?[^:]*EPOLLET", e.get("t") or "")
+            if not guards and tern:
+                # `return (mode == Mode::Edge) ? (bits | EPOLLET) : bits;`
+                condt = tern.group(1)
+                okt = bool(re.match(r"^\s*\w+\s*==\s*(\w+::)*Mode::Edge\s*$", condt))
+                ck.ob("C07-R14", "%s/EPOLLET-iff-edge-mode" % wf.base.replace("Pistache::Polling::", ""), okt, e.loc, wf,
+                      "EPOLLET chosen by `%s`" % condt.strip() if okt else "EPOLLET chosen by `%s`, not by the caller's mode alone" % condt.strip())
+                continue
             pure = bool(guards)
             on_edge = False
             for b, k in guards:
-                refs_ = set(b.term.get("refs") or [])
-                if refs_ - {"v:" + modep[0], "e:Pistache::Polling::Mode::Edge", "e:Pistache::Polling::Mode::Level"}:
+                refs_ = {r_.split("@")[0] if r_.startswith("v:") else r_ for r_ in (b.term.get("refs") or [])}
+                if refs_ - {"v:" + modep[0], "v:mode", "e:Pistache::Polling::Mode::Edge", "e:Pistache::Polling::Mode::Level"}:
                     pure = False
                 r_ = lib.rel_on_edge(b.term, k)
                 if r_ is not None and r_[1] == "==" and "Mode::Edge" in ((r_[2].get("t") or "") + (r_[0].get("t") or "") + str(b.term.get("rconst"))):
                     on_edge = True
                 if r_ is not None and r_[1] == "!=" and "Mode::Level" in ((r_[2].get("t") or "") + (r_[0].get("t") or "") + str(b.term.get("rconst"))):
                     on_edge = True
+                if r_ is not None and r_[1] == "==" and "Mode::Level" in ((r_[2].get("t") or "") + (r_[0].get("t") or "") + str(b.term.get("rconst"))):
+                    on_edge = False
             ck.ob("C07-R14", "%s/EPOLLET-iff-edge-mode" % wf.base.replace("Pistache::Polling::", ""), pure and on_edge, e.loc, wf,
                   "EPOLLET is set on the mode == Edge edge, whose condition mentions the mode only" if pure and on_edge else
                   "whether %s registers edge-triggered does not depend on the caller's mode alone (guards: %s): some registrations the "
